@@ -97,7 +97,7 @@ def role_args(ex, ctx, drv: FuncInfo, roles):
         elif "min_segment_length" in src or p == "min_segment_length":
             v = Num(sym("m"), (), "int")
         elif "penalty" in src or p == "penalty":
-            v = Num(sym("penalty"), (), "float")
+            v = Num(sym("penalty"), (), None)  # any real number type (int 0 is a valid penalty)
         elif p in defaults and isinstance(defaults[p], ast.Constant) and isinstance(defaults[p].value, (int, float)):
             v = Num(sym(p), (), "float" if isinstance(defaults[p].value, float) else "int")
         else:
@@ -161,9 +161,31 @@ def check_cover(ctx, ex, p, drv, loop, F, rv, m, penalty, st):
     n1 = lift(N) + 1
     shape_ok = F.shape is not None and len(F.shape) == 1 and nf_equal(lift(F.shape[0]), n1)
     ctx.check(shape_ok, rule, "table|length", drv.loc(F.node), "the table of optimal costs has one entry per prefix 0..n", found=f"shape {F.shape}", expected="(n + 1,)")
+    ctx.check(F.dtype == "float", rule, "table|dtype", drv.loc(F.node), "the table is a float array whatever the numeric type of the penalty (an integer-typed table would truncate the stored costs)", found=f"dtype {F.dtype or 'taken from an argument'}", expected="float")
     ivs = []
     # initial contents
-    if F.init[0] == "concat":
+    if F.init[0] == "fill":
+        # every slot starts with the fill value: slots not written later keep it
+        written = []
+        for s in F.stores:
+            iv = interval_of_index(s.data["index"], loop if loop in s.loops else None)
+            if iv is not None:
+                written.append(iv)
+        cur = NF.const(0)
+        gaps = []
+        for a_, b_ in sorted(written, key=lambda t: repr(t[0])):
+            pass
+        # treat the fill as covering [0, first written index)
+        firsts = [w for w in written]
+        lo_candidates = [w[0] for w in firsts]
+        # find the written interval chain start: the smallest lower bound is the one no other interval ends at
+        starts_ = [w for w in firsts if not any(nf_equal(w[0], o[1]) for o in firsts)]
+        if len(starts_) == 1:
+            ivs.append((NF.const(0), starts_[0][0], F.init[1], "init"))
+        else:
+            ctx.undecided(rule, "table|init", drv.loc(F.node), "cannot place the fill-initialised prefix of the table")
+            return
+    elif F.init[0] == "concat":
         off = NF.const(0)
         for part in F.init[1]:
             ln = lift(part.shape[0]) if part.shape else None
@@ -188,6 +210,9 @@ def check_cover(ctx, ex, p, drv, loop, F, rv, m, penalty, st):
     ctx.check(ok, rule, "table|partition", drv.loc(), "the index sets written to the table partition [0, n] (every prefix gets exactly one value)", found=msg, expected="{0} | [1,m) | [m,2m) | {t+1 : t in [2m-1, n)}")
     # F[0] == -penalty
     first = [x for x in ivs if nf_equal(x[0], NF.const(0))]
+    if F.init[0] == "fill" and first:
+        # all prefixes shorter than m keep the fill value; F[0] is among them
+        pass
     if first:
         v = first[0][2]
         vn = v if isinstance(v, NF) else (v.nf if isinstance(v, Num) else None)
